@@ -25,7 +25,7 @@ CLAIMS = {
         '(3) one unconditional unit clause per selected output; (4) inputs are literals 1..n in input order; plus the '
         'is_circuit_satisfiable -> Cnf.from_circuit -> solver plumbing. Holds for every circuit containing those gate types, '
         'which no sampled test can give; these files are imported by no collectable test in this sandbox. '
-        'Not decided: the SAT solver itself; arities above the enumerated bound are covered only through the loop shape of the n-ary handlers.',
+        'Not decided: the SAT solver itself; arities above the enumerated bound are covered only through the loop shape of the n-ary handlers. Templates are also evaluated for every equality pattern of operand positions (XOR(x, x), AND(x, y, x), ...).',
         'DESIGN.md 4 C05',
     ),
 }
@@ -39,7 +39,7 @@ CLAIMS.update({
         'the bit-parallel pattern simulator, the Tseytin templates, the bench rewrites - denotes that same function (exhaustive over the finite table domains); '
         '(APPLY) both evaluators apply g.operator to the values of g.operands in operand order from one assignment map, inputs are bound by position, results are '
         'collected in output order and every truth-table enumeration is product((False, True)). Not decided: termination/ordering of the explicit-stack evaluator '
-        'on arbitrary DAGs (relies on C20).',
+        'on arbitrary DAGs (relies on C20). Also: evaluate_circuit\'s stack discipline (a gate is evaluated and popped only when the top of the stack is still that gate; unevaluated operands are pushed), the private copy of the assignment map, the users index entries per operand occurrence (C01.IDX) and the basis-restriction clauses of the synthesis encoding read the truth-table codes in the same bit order.',
         'DESIGN.md 4 C01',
     ),
     'C02': (
@@ -50,7 +50,7 @@ CLAIMS.update({
         'index = inverse operand multiset, input list = INPUT gates, blocks name existing gates (rename must equal label substitution); every other write to a gate '
         'map / users index anywhere under cirbo/ must match a recognised paired shape; (VALID) each public mutator validates each label parameter on a raising '
         'path before its first write; (COPY) no store into circuit state aliases a parameter, Block lists are fresh, __copy__ builds through copying APIs; (ACYC) '
-        'operand re-pointing ends in the cycle check. Not decided: top_sort/dfs/order_list correctness, equality of a copy beyond same constructor calls.',
+        'operand re-pointing ends in the cycle check. Not decided: top_sort/dfs/order_list correctness, equality of a copy beyond same constructor calls. C02.ORDER: order_list (order_inputs/order_outputs) folded over all list pairs of length <= 3 returns a permutation of the current list or raises.',
         'DESIGN.md 4 C02',
     ),
     'C14': (
@@ -79,7 +79,7 @@ CLAIMS.update({
         'in that call; (IFACE) set_outputs gets circuit.outputs or an element-wise order-preserving image, set_inputs gets circuit.inputs in order (RemoveRedundantGates: filtered by presence, '
         'with the complement re-added unless input removal was requested); (EMIT) every rebuilt gate keeps label, type and operand order of the visited gate, nothing is invented, hence no '
         'more gates than the argument; (SYM) signatures sort operands only under is_symmetric; (UNARY) operand getters and the two unary families agree with the operators. '
-        'Not decided: parity bookkeeping / representative choice, i.e. truth-table equality itself.',
+        'Not decided: parity bookkeeping / representative choice, i.e. truth-table equality itself. Passes are stateless (no write to the pass object in _transform); signatures keep the operand multiset; the idempotent-skip rule of pipelines (C18.IDEM) is part of this check.',
         'DESIGN.md 4 C03',
     ),
     'C10': (
@@ -87,14 +87,14 @@ CLAIMS.update({
         'Decides the structural clauses of composition: the attached circuit is never mutated; new outputs/inputs are the documented order-preserving concatenations; attached gates are emitted '
         'in dependency order with type kept and operands mapped element-wise through one label map seeded with the connector pairs; connectors that are replaced must be inputs; the map keys must be the list '
         'validated duplicate-free (known finding F11 for right_connect); every attached non-input gate joins the named block whose inputs/outputs are the mapped interface; the five wrappers pass the documented arguments. '
-        'Not decided: truth-table equality of the composition, Block.into_circuit round trip.',
+        'Not decided: truth-table equality of the composition, Block.into_circuit round trip. C10.IDX: the right_connect branch registers the connector as user of every operand occurrence.',
         'DESIGN.md 4 C10',
     ),
     'C13': (
         'effect summary + guard-context arity reasoning + wiring shape rules on build_miter',
         'Decides: left/right are not mutated; the shape guard raises MiterDifferentShapesError when input_size OR output_size differ before anything is built; right inputs are fed by the left block inputs in order; '
         'the xor block receives left outputs then right outputs against inputs declared as all x then all y, xor_i = XOR(x_i, y_i); the single output is a gate that is the disjunction of all xor outputs and whose arity is legal '
-        'for every output count reachable under the dominating guards (0, 1, >= 2). Not decided: evaluation of the composed circuit (C10 clause).',
+        'for every output count reachable under the dominating guards (0, 1, >= 2). Not decided: evaluation of the composed circuit (C10 clause). The C10 block/interface/emission rules and the freshness of generate_pairwise_xor (no caching) are part of this check.',
         'DESIGN.md 4 C13',
     ),
     'C18': (
@@ -102,7 +102,7 @@ CLAIMS.update({
         'Decides the pipeline clause structurally: as_distinct yields pre, self, post; compositions keep list order; | keeps textual order; apply_transformers is the left fold of _transform from the argument; '
         'transform and cleanup delegate to it with the documented lists; the idempotent-skip is sound (skipped only if idempotent and equal to the previous one; every field read by an idempotent _transform is compared by __eq__; '
         'compositions never equal); merging passes declare RemoveRedundantGates as post-transformer; RemoveRedundantGates emits exactly in the exit hook of a DFS from the outputs. '
-        'Not decided: post-conditions of the merging passes (no duplicate signature / equal tables / double negation).',
+        'Not decided: post-conditions of the merging passes (no duplicate signature / equal tables / double negation). C18.UNARY: MergeUnaryOperators folded over every chain of <= 5 (6 thorough) unary gates with oracle traversals: interface and outputs kept, no negation of a negation / no used buffer.',
         'DESIGN.md 4 C18',
     ),
     'C19': (
@@ -110,7 +110,7 @@ CLAIMS.update({
         'Decides: rename_gate equals label substitution in every label-holding field (gate map, operand tuples, users keys and members, inputs, all output occurrences, all block lists) for every membership pattern, refused renames leave the state untouched; '
         'replace_inputs turns exactly the named inputs into ALWAYS_TRUE/ALWAYS_FALSE (operators constant), keeps the order of the remaining inputs and refuses non-inputs - with C01 this is the cofactor; remove_gate validates existence and no users and '
         'removes the gate from outputs, inputs, index and blocks; replace_subcircuit checks every documented precondition before its first mutation, saves outputs and external users before removing the block, restores them after re-insertion and exits only through the cycle check. '
-        'Not decided: truth-table preservation of replace_subcircuit.',
+        'Not decided: truth-table preservation of replace_subcircuit. The users-index pairing of replace_subcircuit (saved external users are appended, not dropped) is part of C19.SUBC.',
         'DESIGN.md 4 C19',
     ),
     'C20': (
@@ -142,7 +142,7 @@ CLAIMS.update({
         'protocol/implementation signature comparison, enumeration-order rules, loop-carried-state dataflow rule, folding of the index conversions',
         'Decides structural necessary conditions of agreement: all three representations (and both models) define every body-less protocol method with the protocol\'s parameter names, order and defaults; every enumeration is product((False, True)); '
         'input<->index conversions and get_bit_value agree with that order (exhaustive for 1..4 inputs); int wrappers reverse operands and result under the same test; order-sensitive predicates (is_monotone*) decide from loop-carried state or delegate; '
-        'delegating predicates are all(..._at(i)); define() writes a deep copy at [output][canonical index] / replaces exactly the DontCare entries / returns self only for an empty definition. Not decided: that each predicate equals its mathematical definition.',
+        'delegating predicates are all(..._at(i)); define() writes a deep copy at [output][canonical index] / replaces exactly the DontCare entries / returns self only for an empty definition. Not decided: that each predicate equals its mathematical definition. C12.FOLD: every protocol query of all three representations folded over all Boolean functions with <= 2 rows of width 2 plus samples (quick) / all (thorough) of the 2x2 and 3x1 functions and compared with its mathematical definition.',
         'DESIGN.md 4 C12',
     ),
     'C16': (
@@ -168,7 +168,7 @@ CLAIMS.update({
         'a label read from outputs_negation_mapping (complement of an output) is only used to find or build a NOT (known finding F02); a label looked up in output_labels_mapping must be one of its keys (known finding F23); '
         'hand-written re-pointing of users keeps the users index exact (known finding F03); the validation snapshot is a deep copy taken before the first mutation and validation raises iff the miter is satisfiable; '
         'the replacement is searched with size - 1 gates in the requested basis over the don\'t-care model of exactly the non-trivial outputs, failures leave the circuit unchanged. '
-        'Not decided: cut filtering, don\'t-care extraction, splice correctness, truth-table equality and size non-increase in general.',
+        'Not decided: cut filtering, don\'t-care extraction, splice correctness, truth-table equality and size non-increase in general. C04.OUTS: every occurrence of a replaced output is rewritten before the gate is removed; the replace_subcircuit rules (C19.SUBC) are part of this check.',
         'DESIGN.md 4 C04',
     ),
     'C07': (
@@ -176,20 +176,20 @@ CLAIMS.update({
         'Decides: the half/full adders (both bases), Stockmeyer block, MDFA and simplified MDFA satisfy their arithmetic specification for every input value; a Union[str, GenerationBasis] value is compared with enum members only after normalisation (however the basis is spelled); '
         'on paths where the basis is AIG (XAIG) only AIG (XAIG) gate kinds are reachable, branches pruned and callees followed; generators touch the host circuit only through add_gate/emplace_gate (which refuse existing labels, C02), read-only queries and the output interface, new labels come from freshness loops; '
         'no operand list is mutated in place; operands are reversed at entry and every returned number converted back under big_endian on every return path; placeholder-filled lists are completely overwritten before being returned (abstract execution over operand sizes). '
-        'Not decided: level bookkeeping, distinct levels, the sum identity of the composed circuits, gate-count bounds.',
+        'Not decided: level bookkeeping, distinct levels, the sum identity of the composed circuits, gate-count bounds. C07.FOLD instantiates the loop-only large-shift branch of the shifted adder; C07.WORKLIST requires every fed work list in the level-loop condition; C07.TRANSPOSE keeps ragged block sums untruncated.',
         'DESIGN.md 4 C07',
     ),
     'C08': (
         'registry exhaustiveness/signature agreement, effect summaries, endianness rule',
         'NARROW claim: the core of the statement (the returned bits decode to a*b or a^2, result widths, Karatsuba thresholds) is NOT decided. Decided: every MulMode/SquareMode member has a registered generator with the common signature and generate_* dispatches on it, forwarding big_endian; '
-        'multipliers and squarers only add fresh gates (add-only calls on the host, C02 refuses existing labels), never mutate their operand lists, reverse operands at entry and convert every returned product back under big_endian on every return path; placeholder tables do not leak on the loop-bounded paths.',
+        'multipliers and squarers only add fresh gates (add-only calls on the host, C02 refuses existing labels), never mutate their operand lists, reverse operands at entry and convert every returned product back under big_endian on every return path; placeholder tables do not leak on the loop-bounded paths. C08.KARATSUBA: split-and-recombine multipliers/squarer add the middle term at shift mid (mid + 1 for 2ab) and the high product at 2*mid, and the terms are products of the right halves; compressor gadgets (C07.GADGET) and C07.TRANSPOSE are part of this check.',
         'DESIGN.md 4 C08',
     ),
     'C09': (
         'gadget netlists folded against pointwise specs, guard-dominance rule for output marking, host-input rule, effect summaries, endianness rule',
         'Decides: add_sub2/add_sub3 (a - b [- bal] = r - 2*borrow), add_if_then_else, and the elements of add_pairwise_xor / add_pairwise_if_then_else compute their pointwise definitions for every input value and mark outputs only on request; '
         'every change of the host\'s outputs in a function with add_outputs is dominated by add_outputs; add_* functions never touch the inputs of the host (operands may be arbitrary gates) and only add fresh gates; operand lists are not mutated; endianness handled on every return path; placeholder lists fully overwritten. '
-        'Not decided: exactness of the subtraction chains, division, square root, equality gadget and plus-one carry chain (loop-built arithmetic).',
+        'Not decided: exactness of the subtraction chains, division, square root, equality gadget and plus-one carry chain (loop-built arithmetic). C09.FOLD: add_equal, add_plus_one and add_sub_two_numbers (for-range templates with finitely many index cases) instantiated for every small width on a host that already has gates and outputs, both endiannesses; operands are resized only after the big-endian reversal.',
         'DESIGN.md 4 C09',
     ),
 })
